@@ -24,7 +24,12 @@ pub const T_GSET0: u64 = 5;
 pub const T_EQZ: u64 = 6;
 pub const T_SUB: u64 = 7;
 pub const T_REFNULL: u64 = 8; // ref.null func
+pub const T_LOAD: u64 = 9; // i32.load (memory 0, offset 0)
+pub const T_STORE: u64 = 10; // i32.store (memory 0, offset 0)
+pub const T_CALL2: u64 = 11; // call 2: the helper function $acc (i32) -> () of the semantic engine's modules (global 0 += argument)
 pub const T_MALFORMED: u64 = 999999;
+/// number of i32 cells of memory 0 that the semantic engine's interpreter models (addresses 0, 4, .., 4*(MEM_CELLS-1))
+pub const MEM_CELLS: u64 = 8;
 
 impl Bt {
     pub fn coq(&self) -> String {
@@ -108,6 +113,9 @@ impl Op {
             Op::Other(T_GGET0) => I::GlobalGet(0),
             Op::Other(T_GSET0) => I::GlobalSet(0),
             Op::Other(T_REFNULL) => I::RefNull(wasm_encoder::HeapType::FUNC),
+            Op::Other(T_LOAD) => I::I32Load(wasm_encoder::MemArg { offset: 0, align: 2, memory_index: 0 }),
+            Op::Other(T_STORE) => I::I32Store(wasm_encoder::MemArg { offset: 0, align: 2, memory_index: 0 }),
+            Op::Other(T_CALL2) => I::Call(2),
             Op::Other(_) => I::Nop,
         }
     }
@@ -138,6 +146,9 @@ impl Op {
             Op::Other(T_LOG) => Operator::Call { function_index: 0 },
             Op::Other(T_GGET0) => Operator::GlobalGet { global_index: 0 },
             Op::Other(T_GSET0) => Operator::GlobalSet { global_index: 0 },
+            Op::Other(T_LOAD) => Operator::I32Load { memarg: wasmparser::MemArg { align: 2, max_align: 2, offset: 0, memory: 0 } },
+            Op::Other(T_STORE) => Operator::I32Store { memarg: wasmparser::MemArg { align: 2, max_align: 2, offset: 0, memory: 0 } },
+            Op::Other(T_CALL2) => Operator::Call { function_index: 2 },
             _ => Operator::Nop,
         }
     }
@@ -170,6 +181,9 @@ impl Op {
             Operator::GlobalGet { global_index: 0 } => Op::Other(T_GGET0),
             Operator::GlobalSet { global_index: 0 } => Op::Other(T_GSET0),
             Operator::RefNull { .. } => Op::Other(T_REFNULL),
+            Operator::I32Load { memarg } if memarg.offset == 0 && memarg.memory == 0 && memarg.align == 2 => Op::Other(T_LOAD),
+            Operator::I32Store { memarg } if memarg.offset == 0 && memarg.memory == 0 && memarg.align == 2 => Op::Other(T_STORE),
+            Operator::Call { function_index: 2 } => Op::Other(T_CALL2),
             other => {
                 let k = format!("{:?}", other);
                 let n = toks.len() as u64 + 100;
@@ -193,6 +207,9 @@ pub fn show_ops(v: &[Op]) -> String {
         Op::Other(T_LOG) => "call0".to_string(),
         Op::Other(T_GGET0) => "global.get0".to_string(),
         Op::Other(T_GSET0) => "global.set0".to_string(),
+        Op::Other(T_LOAD) => "i32.load".to_string(),
+        Op::Other(T_STORE) => "i32.store".to_string(),
+        Op::Other(T_CALL2) => "call2".to_string(),
         o => format!("{:?}", o).to_lowercase(),
     }).collect::<Vec<_>>().join(" ")
 }
@@ -308,7 +325,14 @@ impl<'a> TypedGen<'a> {
                     self.out.push(Op::Other(if self.r.chance(1, 2) { T_ADD } else { T_SUB }));
                     self.out.push(Op::LocalSet(b));
                 }
-                5 => { self.out.push(Op::Other(T_GGET0)); self.out.push(Op::Const(1)); self.out.push(Op::Other(T_ADD)); self.out.push(Op::Other(T_GSET0)); }
+                5 => match self.r.below(4) {
+                    0 => { self.out.push(Op::Other(T_GGET0)); self.out.push(Op::Const(1)); self.out.push(Op::Other(T_ADD)); self.out.push(Op::Other(T_GSET0)); }
+                    // memory: store a local to / load a local from one of the MEM_CELLS word cells of memory 0
+                    1 => { let a = self.var(); self.out.push(Op::Const(4 * self.r.below(MEM_CELLS) as i32)); self.out.push(Op::LocalGet(a)); self.out.push(Op::Other(T_STORE)); }
+                    2 => { let b = 2 + self.r.below(4) as u32; self.out.push(Op::Const(4 * self.r.below(MEM_CELLS) as i32)); self.out.push(Op::Other(T_LOAD)); self.out.push(Op::LocalSet(b)); }
+                    // a call of the helper function $acc
+                    _ => { let a = self.var(); self.out.push(Op::LocalGet(a)); self.out.push(Op::Other(T_CALL2)); }
+                },
                 6 | 7 if depth < self.maxdepth => {
                     let res = self.r.chance(1, 4);
                     self.out.push(Op::Block(if res { Bt::I32 } else { Bt::Empty }));
